@@ -106,8 +106,10 @@ func RandISet(rng *rand.Rand, minShift, depth int) ISet {
 		if c := SpanCap(minShift, depth); c > 0 && l > c {
 			l = c
 		}
-		if st+l > max {
-			l = max - st
+		// the exclusive end may reach Max()-1: the last base a record can
+		// cover is the last position the scheme accepts as a start
+		if st+l > max+1 {
+			l = max + 1 - st
 		}
 		if l < 1 {
 			l = 1
@@ -138,6 +140,20 @@ func RandISet(rng *rand.Rand, minShift, depth int) ISet {
 		s.Recs = append(s.Recs,
 			IRec{Ref: ref, Start: t*tile + 3, End: t*tile + 10, Mapped: true, Size: 50},
 			IRec{Ref: ref, Start: t*tile + tile - 5, End: t*tile + tile + 7, Mapped: true, Size: 50})
+	}
+	// a record covering the last indexable base
+	if rng.Intn(4) == 0 {
+		l := 1 + rng.Intn(3)
+		if rng.Intn(3) == 0 {
+			l = 1 + rng.Intn(2*tile)
+		}
+		if c := SpanCap(minShift, depth); c > 0 && l > c {
+			l = c
+		}
+		if l > max+1 {
+			l = max + 1
+		}
+		s.Recs = append(s.Recs, IRec{Ref: rng.Intn(s.NRefs), Start: max + 1 - l, End: max + 1, Mapped: true, Size: 60})
 	}
 	sort.SliceStable(s.Recs, func(a, b int) bool {
 		x, y := s.Recs[a], s.Recs[b]
